@@ -160,7 +160,8 @@ Fixpoint sides_pow (ss : list commit) (b : block) : res unit :=
       _ <- guard (seedhash_id (cm_ts s) =? seedhash_id (b_ts b)) 611 ;;
       _ <- guard (negb (cm_bad_chains s)) 613 ;;
       x <- mul64 (b_diff b) 2 ;;
-      ok <- valid_pow (cm_pow s) (x / 3) ;;
+      let side_diff := if x / 3 =? 0 then b_diff b else x / 3 in   (* 2/3 of difficulty 1 rounds to 0: own difficulty *)
+      ok <- valid_pow (cm_pow s) side_diff ;;
       _ <- guard ok 612 ;;
       sides_pow r b
   end.
